@@ -235,24 +235,138 @@ Example c10_nonvacuous :
 Proof. eexists. split; [vm_compute; reflexivity|]. vm_compute. repeat split; reflexivity. Qed.
 
 (* ------------------------------------------------------------------------------------------ *)
-(* Generation 1 (x/auction): the price update (dutch.go:495-503, dutch_lend.go likewise) is the same
-   arithmetic with the end price stored in the record, so the price clauses and the refutation carry
-   over.  PARTIAL: generation 1 is modelled for the price path only (Model/DutchV1.v); its bid path
-   (both dust rules, the target-reached recomputation) and close are not modelled and generation 1
-   is not driven by the harness (the price functions are unexported). *)
-From Comdex Require Import Model.DutchV1 Proofs.DutchProofsV1.
+(* Generation 1 (x/auction): vault auctions (dutch.go) and lend auctions (dutch_lend.go).  A bid names an
+   amount of COLLATERAL; the bidder pays its posted value in debt, clipped to the debt still to collect
+   (then the collateral slice is recomputed from that debt).  Model/DutchV1.v follows the code statement
+   by statement; TestC10V1 / TestC10V1Lend drive the real keepers.  Not modelled: the ESM branch of
+   RestartDutchAuctions, the book-keeping of UnLiquidateLockedBorrows after a lend close. *)
+From Comdex Require Import Model.DutchV1 Proofs.DutchProofsV1 Proofs.DutchProofsV1Bid.
 
-Theorem c10_v1_price_monotone_partial : forall top cusp dur t1 t2 p1 p2,
+(* price: the update is the same arithmetic as generation 2 with the end price stored in the record *)
+Theorem c10_v1_price_monotone : forall top cusp dur t1 t2 p1 p2,
   fits_dec (dmul top cusp) = true ->
   0 <= v1_end_price top cusp < top -> 0 <= dur -> 0 <= t1 -> t1 <= t2 -> t2 <= dur ->
   v1_posted_price top (v1_end_price top cusp) dur t1 = Some p1 ->
   v1_posted_price top (v1_end_price top cusp) dur t2 = Some p2 ->
   p2 <= p1 /\ p1 <= top /\ 0 <= p2.
 Proof. exact v1_posted_monotone. Qed.
-Print Assumptions c10_v1_price_monotone_partial.
+Print Assumptions c10_v1_price_monotone.
 
+(* what a block tick posts: strictly after EndTime a restart at the new start price (with the end price
+   = start x cusp), otherwise [v1_posted_price] of the elapsed whole seconds *)
+Theorem c10_v1_tick_posts : forall cf now pin pout a a',
+  v1_tick_raw cf now pin pout a = Ok a' ->
+  (now > t_end a /\ p_out a' = p_top a' /\ p_end a' = v1_end_price (p_top a') (v_cusp cf) /\
+   t_start a' = now /\ t_end a' = now + v_dur cf) \/
+  (now <= t_end a /\ p_top a' = p_top a /\ p_end a' = p_end a /\ t_start a' = t_start a /\ t_end a' = t_end a /\
+   v1_posted_price (p_top a) (p_end a) (v_dur cf) (now - t_start a) = Some (p_out a')).
+Proof. exact v1_tick_price. Qed.
+Print Assumptions c10_v1_tick_posts.
+
+(* the end-price clause fails exactly as in generation 2 (C10-F1, same truncation) *)
 Theorem c10_v1_end_price_refuted : exists top cusp dur p,
   0 <= v1_end_price top cusp < top /\ 0 < dur /\
   v1_posted_price top (v1_end_price top cusp) dur dur = Some p /\ p < v1_end_price top cusp.
 Proof. exact v1_end_price_refuted. Qed.
 Print Assumptions c10_v1_end_price_refuted.
+
+(* Totals, by induction over ANY history of MsgPlaceDutchBid / MsgPlaceDutchLendBid (any bidder, any
+   amount incl. 0 / negative / over-sized / wrong denom) and block ticks (any time, any oracle values),
+   each atomic; no assumption on prices.  g_paid = debt paid by bidders, g_recv = collateral taken off
+   the auction, g_bonus = collateral paid on top of it (lend: the liquidation bonus), g_top = shortfall
+   covered by the collector (vault) / the lend reserve (lend) when the collateral is sold out. *)
+Theorem c10_v1_totals : forall cf coll ao pen fees now pin pout a0 s ops,
+  (v_lend cf = true -> 0 <= v_bonus cf) -> (v_lend cf = false -> v_bonus cf = 0) ->
+  0 <= coll -> 0 <= ao -> 0 <= pen -> 0 <= fees ->
+  v1_activate cf coll ao pen fees now pin pout = Ok a0 ->
+  let f := v1_run cf ao (mkV1L s (Some a0) 0 0 0 0) ops in
+  0 <= g_paid f <= i_target a0 /\ 0 <= g_recv f <= coll /\
+  0 <= g_bonus f /\ g_bonus f * P18 <= g_recv f * v_bonus cf /\
+  match g_a f with
+  | Some a => g_paid f = i_cur a /\ g_recv f + o_cur a = coll /\ 0 <= o_cur a /\ i_cur a <= i_target a /\
+              i_target a = i_target a0 /\ g_top f = 0
+  | None => g_paid f + g_top f = i_target a0 /\ 0 <= g_top f
+  end.
+Proof. exact v1_totals. Qed.
+Print Assumptions c10_v1_totals.
+
+(* one bid: amounts *)
+Theorem c10_v1_bid_amounts : forall cf ao a s who bid wd s' a' r,
+  v1good a -> (v_lend cf = true -> 0 <= v_bonus cf) -> (v_lend cf = false -> v_bonus cf = 0) ->
+  v1_place_bid cf ao a s who bid wd = Ok (s', a', r) ->
+  let tab := i_target a - i_cur a in
+  0 <= w_paid r <= tab /\ 0 <= w_slice r <= o_cur a /\
+  w_recv r = w_slice r + v1_bonus_of cf (w_slice r) /\ 0 <= v1_bonus_of cf (w_slice r) /\
+  v1_bonus_of cf (w_slice r) * P18 <= w_slice r * v_bonus cf /\
+  (w_reached r = false -> w_slice r = bid /\ w_paid r = conv (v_dout cf) (p_out a) bid (v_din cf) (p_in a) /\ 0 < w_paid r) /\
+  (w_reached r = true -> w_paid r = tab /\ w_slice r = conv (v_din cf) (p_in a) tab (v_dout cf) (p_out a)) /\
+  match a' with
+  | Some b => w_closed r = false /\ w_topup r = 0 /\
+              o_cur b = o_cur a - w_slice r /\ i_cur b = i_cur a + w_paid r /\ i_cur b < i_target a /\ 0 < o_cur b /\
+              i_target b = i_target a /\ p_out b = p_out a /\ p_in b = p_in a /\ p_top b = p_top a /\ p_end b = p_end a /\
+              t_start b = t_start a /\ t_end b = t_end a
+  | None => w_closed r = true /\ 0 <= w_topup r /\ i_cur a + w_paid r + w_topup r = i_target a /\
+            (0 < w_topup r -> w_slice r = o_cur a)
+  end.
+Proof. exact v1_bid_amounts. Qed.
+Print Assumptions c10_v1_bid_amounts.
+
+(* each bid exchanges at the posted price, as the extracted predicate the runner evaluates on every observed
+   bid: the bidder pays more than the posted value of the slice minus three debt units (when the bid fills
+   the target: the slice is at most one collateral unit more than the payment buys); lend: the bonus on top
+   is at most the advertised share of the slice *)
+Theorem c10_v1_bid_price : forall cf ao a s who bid wd s' a' r,
+  v1good a -> (v_lend cf = true -> 0 <= v_bonus cf) -> (v_lend cf = false -> v_bonus cf = 0) ->
+  0 < v_dout cf <= P18 -> 0 < v_din cf <= P18 -> v_dout cf <= p_out a -> v_din cf <= p_in a ->
+  v1_place_bid cf ao a s who bid wd = Ok (s', a', r) ->
+  holds_C10_v1_bid (v_dout cf) (v_din cf) (p_out a) (p_in a) (v_bonus cf) (o_cur a) (i_target a - i_cur a)
+                   (w_paid r) (w_recv r) (w_slice r) = true.
+Proof. exact v1_bid_price_holds. Qed.
+Print Assumptions c10_v1_bid_price.
+
+(* close completeness, vault auctions: the closing bid (target reached, or collateral sold out with the
+   collector paying the rest) takes out of the auction account exactly this auction's remaining collateral
+   and the debt it had collected; the principal (LockedVault.AmountOut) is burned, the rest of the target
+   (penalty + accumulated fees) goes to the collector and into its fee book, unsold collateral to the owner *)
+Theorem c10_v1_close_complete_vault : forall cf ao a s who bid wd s' r,
+  v_lend cf = false -> v_bonus cf = 0 -> v1good a -> 0 <= ao <= i_target a -> 0 <= who ->
+  v1_place_bid cf ao a s who bid wd = Ok (s', None, r) ->
+  i_cur a + w_paid r + w_topup r = i_target a /\
+  v_led s' AUC_C = v_led s AUC_C - o_cur a /\
+  v_led s' AUC_D = v_led s AUC_D - i_cur a /\
+  v_led s' OWN_C + v_led s' (BID_C who) = v_led s OWN_C + v_led s (BID_C who) + o_cur a /\
+  v_led s' BRN_D = v_led s BRN_D + ao /\
+  v_led s' COL_D = v_led s COL_D + (i_target a - ao) - w_topup r /\
+  v_netfee s' = Some (match v_netfee s with Some x => x | None => 0 end + (i_target a - ao) - w_topup r).
+Proof. exact v1_close_complete_vault. Qed.
+Print Assumptions c10_v1_close_complete_vault.
+
+(* close completeness, lend auctions: every bid's payment goes straight on to the lending pool; at the close
+   the pool has received the whole target (the lend reserve covering a shortfall it can afford), the
+   remaining collateral went to bidder and owner.  The bonus is paid out of the auction account ON TOP of
+   the auction's own collateral (it was transferred in by the liquidation module). *)
+Theorem c10_v1_close_complete_lend : forall cf ao a s who bid wd s' r,
+  v_lend cf = true -> 0 <= v_bonus cf -> v1good a -> 0 <= who ->
+  v1_place_bid cf ao a s who bid wd = Ok (s', None, r) ->
+  i_cur a + w_paid r + w_topup r = i_target a /\
+  v_led s' AUC_C = v_led s AUC_C - o_cur a - (w_recv r - w_slice r) /\
+  v_led s' AUC_D = v_led s AUC_D /\
+  v_led s' OWN_C + v_led s' (BID_C who) = v_led s OWN_C + v_led s (BID_C who) + o_cur a + (w_recv r - w_slice r) /\
+  v_led s' POOL_D = v_led s POOL_D + w_paid r + w_topup r /\
+  v_led s' LEND_D = v_led s LEND_D - w_topup r /\ (0 < w_topup r -> w_topup r <= v_led s LEND_D).
+Proof. exact v1_close_complete_lend. Qed.
+Print Assumptions c10_v1_close_complete_lend.
+
+(* non-vacuity: a vault auction (1000000 collateral at 1.0, debt 600000 + 12 % penalty, start price 1.2,
+   end factor 0.6, 300 s) takes a partial bid, a tick and a bid that fills the target *)
+Definition v1ex_cf : v1cfg := mkV1Cfg (12 * P18 / 10) (6 * P18 / 10) 300 100000 1000000 1000000 false 0.
+Definition v1ex_led : ledger := fun k => if k =? 0 then 1000000 else if k =? 11 then 5000000 else if k =? 13 then 5000000 else 0.
+Example c10_v1_nonvacuous :
+  exists a0, v1_activate v1ex_cf 1000000 600000 (12 * P18 / 100) 0 0 (Some 1000000) (Some 1000000) = Ok a0 /\
+  i_target a0 = 672000 /\
+  let f := v1_run v1ex_cf 600000 (mkV1L (mkV1S v1ex_led None) (Some a0) 0 0 0 0)
+                  [V1Bid 0 200000 false; V1Tick 100 (Some 1000000) (Some 1000000); V1Bid 1 800000 false] in
+  g_a f = None /\ g_paid f = 672000 /\ g_recv f = 615384 /\ g_top f = 0 /\
+  v_led (g_s f) AUC_C = 0 /\ v_led (g_s f) AUC_D = 0 /\ v_led (g_s f) BRN_D = 600000 /\
+  v_led (g_s f) COL_D = 72000 /\ v_netfee (g_s f) = Some 72000 /\ v_led (g_s f) OWN_C = 384616.
+Proof. eexists. split; [vm_compute; reflexivity|]. vm_compute. repeat split; reflexivity. Qed.
